@@ -914,6 +914,16 @@ def check_ensembles(case, ctx):
     if case.get("povm") is not None:
         es = gen.povm_matrices(case["povm"])
         qp = build.make(c_sys, "povm", np.concatenate([np.real(rm.vec(basis, e)) for e in es]), m=len(es))
+        # the certain ensemble {rho with probability 1}, its weight written as the integer 1 (as the library's own typical
+        # ensembles write theirs) or as 1.0: the POVM statistics are the Born rule of rho either way
+        born = np.array([float(np.real(np.trace(e @ rho))) for e in es])
+        for wtag, w in (("int", [1]), ("float", [1.0])):
+            certain = StateEnsemble([state], MultinomialDistribution(w))
+            pdc = compose_qoperations(qp, certain)
+            if ctx.check(type(pdc) is MultinomialDistribution, f"povm_on_certain_ensemble:type:{wtag}", f"{type(pdc)}"):
+                ctx.equal(tuple(int(v) for v in pdc.shape), (1, len(es)), f"povm_on_certain_ensemble:shape:{wtag}")
+                if np.asarray(pdc.ps).size == len(es):
+                    ctx.close(np.asarray(pdc.ps, dtype=float), born, ptol(born) + alg, f"povm_on_certain_ensemble:born_rule:{wtag}")
         ref3 = np.array([[[float(np.real(np.trace(e @ x))) for e in es] for x in row] for row in ab])
         pd3 = compose_qoperations(qp, ens2)
         ctx.check(type(pd3) is MultinomialDistribution, "povm_on_ens:type", f"{type(pd3)}")
